@@ -28,6 +28,8 @@ pub const KINDS: &[&str] = &[
     "Title:é", "Artist:\u{1F600} tail", "BeatDivisor: x", "HPDrainRate:NaN", "-1,-1,-1", "2,100,50", "[HitObjects]\t", "[Events]   ", "//[General]", "$var=1", "Mania: 4K", "[Metadata)", "[General}", "[HitObjects1", "(General]", "[General]]", "{General}", "[TimingPoints>", " Mode: 3", "_indented", " 256,192,100,1,0",
     "Title:x // y", "Artist:AC//DC", "\u{3000}// c", "\u{b}//c", "\u{a0}// c", "\u{2003}//", "\u{feff}osu file format v9", "\u{feff}", "\u{feff}[General]", "\0", "\0[General]", "\0osu file format v9",
     "Creator:me\u{1a}", "\u{1a}", "osu file format v9\u{1a}", "[Metadata]\u{1a}", "Title:t\u{7f}", "\u{c}// ff",
+    // a CR in front (what "LF CR" line ends leave at the start of the next line)
+    "\r[Events]", "\rosu file format v9", "\r", "\r// c", "\rTitle:x", "\r\r[General]",
 ];
 
 /// Characters whose UTF-16 code units contain the byte 0x0A (or 0x0D): framing must not be confused by them.
@@ -122,7 +124,7 @@ impl Scenario for C05 {
             let l = if rng.chance(1, 12) { *rng.pick(TRICKY) } else { *rng.pick(KINDS) };
             s.push_str(l);
             if i + 1 < len || rng.chance(2, 3) {
-                s.push_str(if crlf_file || rng.chance(1, 10) { "\r\n" } else { "\n" });
+                s.push_str(if crlf_file || rng.chance(1, 10) { "\r\n" } else if rng.chance(1, 40) { "\n\r" } else { "\n" });
             }
         }
         if rng.chance(1, 80) {
@@ -154,6 +156,17 @@ impl Scenario for C05 {
                 }
             }
             p.faults.push("S6-invalid-utf8".into());
+        } else if e >= 2 && rng.chance(1, 12) {
+            // byte-level damage in UTF-16 storage: cut anywhere (also in the middle of a code unit), or a dangling byte
+            // after the last complete unit
+            if rng.chance(1, 2) && p.data.len() > 2 {
+                let keep = 2 + rng.below(p.data.len() - 1);
+                p.data.truncate(keep);
+                p.faults.push("S1-truncate-utf16".into());
+            } else {
+                p.data.push(*rng.pick(&[0x0Au8, 0x00, 0x0D, 0x5B, 0xD8, 0xFF]));
+                p.faults.push("S1-dangling-byte-utf16".into());
+            }
         }
         p.set("enc", e as i64);
         p.set("dec", if rng.chance(1, 2) { 0 } else { 1 + rng.below(9) as i64 });
@@ -210,6 +223,18 @@ impl Scenario for C05 {
         }
         st.outcome = h.finish() ^ real.version as u64;
         compare(&real, &model, data)?;
+        if which == 1 && [T_FROM_STR, T_FROM_BYTES, T_FROM_PATH, T_FROM_PATH_PIPE].contains(&plan.get("t")) {
+            // the full decoder also has entry points of its own (Beatmap::from_bytes, str::parse, Beatmap::from_path): a
+            // foreign handler cannot ride along there, so the value they return is compared with the generic entry point
+            use crate::probe::{from_bytes_fp, Dec};
+            let mut q = plan.clone();
+            q.set("inherent", 1);
+            let via = crate::transport::decode_via(&q, Dec::Beatmap, st);
+            let want = from_bytes_fp(Dec::Beatmap, data).map_err(|e| e.kind());
+            if via.out != want {
+                return Err(Violation::new("C05/entry-points-disagree", "inherent", format!("Beatmap's own entry point ({}) gives {:?}, rosu_map::from_bytes::<Beatmap> gives {want:?} for the same bytes", crate::transport::transport_name(plan.get("t")), via.out)));
+            }
+        }
         regroup_check(which, data, &model, st)
     }
     fn nontrivial(&self, plan: &Plan) -> bool {
